@@ -6,4 +6,10 @@ Emit == done => PrintT(<< "T", mapping, dev, dev2, termResult, camResult, termSM
 Universe == { [fam |-> "ecdh-gm", w |-> 250], [fam |-> "ecdh-gm", w |-> 253], [fam |-> "ecdh-cam", w |-> 300],
               [fam |-> "dh-gm", w |-> 203], [fam |-> "dh-im", w |-> 103], [fam |-> "ecdh-im", w |-> 153], [fam |-> "unknown", w |-> 999] }
 SelectInv == \A S \in SUBSET Universe : SelectOK(S)
+\* the loop over the file order: every sequence of up to three distinct entries, each with its own parameter id
+UniverseP == { [fam |-> "ecdh-gm", w |-> 250, pid |-> 13], [fam |-> "ecdh-gm", w |-> 253, pid |-> 12], [fam |-> "ecdh-gm", w |-> 252, pid |-> 16],
+               [fam |-> "ecdh-cam", w |-> 300, pid |-> 13], [fam |-> "dh-gm", w |-> 203, pid |-> 0], [fam |-> "ecdh-im", w |-> 153, pid |-> 15],
+               [fam |-> "unknown", w |-> 999, pid |-> 17] }
+Seqs3 == UNION { [1..n -> UniverseP] : n \in 1..3 }
+CoupledInv == \A q \in Seqs3 : Coupled(q)
 =============================================================================
